@@ -1250,6 +1250,45 @@ func (g *genCtx) tmplSliceMembers() {
 	for n := g.r.Range(1, 4); n > 0; n-- {
 		feeder()
 	}
+	if (g.ft.GroupDecs || g.ft.Soft) && g.r.P(0.5) {
+		// the same group *name* with element types T and []T: two different
+		// groups. The one of []T is decorated; the one of T has feeders of its
+		// own and is consumed softly and in full, before and after the
+		// decorated one was built.
+		base := t - TSlice
+		ds := path[g.r.Intn(len(path))]
+		dec := g.newFunc(RoleDec)
+		dec.Params = []Param{{Kind: PObj, Fields: []Param{{Kind: PGroup, T: t, Group: grp}}}}
+		dec.Results = []Result{{Kind: RObj, Fields: []Result{{Kind: RGroup, T: t, Group: grp}}}}
+		dec.HasErr = g.r.P(0.3)
+		i := g.addOp(Op{Kind: OpDecorate, Scope: ds, Fn: dec.ID, Tag: "slice-members"})
+		if g.m.PredictDecorate(ds, dec) == PredOK {
+			g.m.AddDec(ds, i, dec)
+		}
+		for n := g.r.Range(0, 2); n > 0; n-- {
+			fs := path[g.r.Intn(len(path))]
+			f := g.newFunc(RoleCtor)
+			f.Results = []Result{{Kind: RObj, Fields: []Result{{Kind: RGroup, T: base, Group: grp}}}}
+			f.HasErr = g.r.P(0.5)
+			j := g.addOp(Op{Kind: OpProvide, Scope: fs, Fn: f.ID, Tag: "slice-members"})
+			if g.m.PredictProvide(fs, f) == PredOK {
+				g.m.AddCtor(fs, j, f)
+			}
+		}
+		ask := func(soft bool) {
+			sub := g.m.Subtree(s)
+			inv := g.newFunc(RoleInv)
+			inv.Params = []Param{{Kind: PObj, Fields: []Param{{Kind: PGroup, T: base, Group: grp, Soft: soft}}}}
+			g.addOp(Op{Kind: OpInvoke, Scope: sub[g.r.Intn(len(sub))], Fn: inv.ID, Tag: "slice-members"})
+		}
+		ask(true)
+		if g.r.P(0.5) {
+			request()
+			ask(g.r.P(0.5))
+		} else {
+			ask(false)
+		}
+	}
 	request()
 	if g.r.P(0.6) {
 		feeder()
